@@ -9,6 +9,7 @@ package main
 // back from the vmetadata store and given to the model as its input.
 
 import (
+	"errors"
 	"fmt"
 	"sort"
 	"strings"
@@ -458,6 +459,8 @@ func c11Commit(env *corekit.Env, repo, diamondID string, mode model.ConflictMode
 	return c11CommitOpt(env, repo, diamondID, mode, byHash, false)
 }
 
+var errHang = errors.New("hang: Commit did not return within 30 s")
+
 // c11CommitOpt: with retry, the first Commit of the Diamond object fails on a transient read fault
 // (a split index file cannot be fetched) and Commit is called again on the SAME object.
 func c11CommitOpt(env *corekit.Env, repo, diamondID string, mode model.ConflictMode, byHash map[string][]byte, retry bool) string {
@@ -475,9 +478,24 @@ func c11CommitOpt(env *corekit.Env, repo, diamondID string, mode model.ConflictM
 		core.DiamondDescriptor(model.NewDiamondDescriptor(model.DiamondID(diamondID), model.DiamondMode(mode))),
 		core.DiamondMessage("verif"), core.DiamondLogger(corekit.Nop))
 	c11Page++
-	err := corekit.Recover(func() error { return d.Commit(core.BatchSize(c11Pages[c11Page%len(c11Pages)])) })
-	if retry && err != nil {
-		err = corekit.Recover(func() error { return d.Commit(core.BatchSize(c11Pages[c11Page%len(c11Pages)])) })
+	commit := func() error {
+		done := make(chan error, 1)
+		go func() {
+			done <- corekit.Recover(func() error { return d.Commit(core.BatchSize(c11Pages[c11Page%len(c11Pages)])) })
+		}()
+		select {
+		case e := <-done:
+			return e
+		case <-time.After(30 * time.Second):
+			return errHang
+		}
+	}
+	err := commit()
+	if retry && err != nil && err != errHang {
+		err = commit()
+	}
+	if err == errHang {
+		return "hang"
 	}
 	if err != nil {
 		if corekit.ErrClass(err) == "panic" {
